@@ -423,3 +423,40 @@ def commb_step_preserves_invariant(has_tpos, pair, ver, nic, lat, lon, dtpos, dt
     assert ("012345" in acs) == (tnow - live_b <= 60), "a bystander is kept exactly while tnow - live <= cache timeout"
     if "ABCDEF" in acs:
         assert inv(acs["ABCDEF"]), "the record is inside the invariant again (induction step)"
+
+
+@harness("C17", inputs={}, kind="table",
+         note="the kinematic side conditions of the accuracy clause, which were only argued before: a trajectory at up "
+              "to 600 kt stays inside the preconditions under which C03 / C04 prove the decoders that process_raw "
+              "calls (pair heard within 10 s -> global decode; fix younger than 180 s -> decode with reference).  "
+              "Exhaustive over the 58 NL bands x parity x airborne / surface; cos by libm with 1e-9 relative margin.  "
+              "Not covered, and said so: band 1 (|lat| > 87) on the surface, and surface pairs faster than 252 kt "
+              "(C05 is proved for pairs up to 0.7 NM apart)")
+def kinematic_side_conditions_imply_cpr_preconditions():
+    import math
+    from spec import cpr_spec
+    from spec.nl_table import TRANSITION
+    from contracts.c03 import PAIR_NM, lon_slack
+    pair_nm = 600 * 10 / 3600              # NM flown in the 10 s pairing window
+    ref_nm = 600 * 180 / 3600              # NM flown in the 180 s reference window
+    assert pair_nm <= PAIR_NM, "600 kt x 10 s is within the pair distance C03 is proved for (longitude)"
+    assert pair_nm / 60 <= 0.05, "600 kt x 10 s is within the pair distance C03 is proved for (latitude, 0.05 degree)"
+    n = 0
+    for surface in (False, True):
+        for i in (0, 1):
+            half = cpr_spec.dlat(i, surface) / 2 - cpr_spec.lat_step(i, surface)
+            assert ref_nm / 60 <= half, "600 kt x 180 s of latitude is inside C04's half-zone box"
+        for k in range(2, 60):
+            # highest latitude at which a frame of band k, or the position 180 s / 10 s earlier, can lie
+            top = float(TRANSITION[k]) + ref_nm / 60
+            assume_top = min(top, 89.9)
+            inv = (1 + 1e-9) / math.cos(math.radians(assume_top))
+            if not surface:
+                assert (pair_nm / 60) * (1 + 1e-9) / math.cos(math.radians(float(TRANSITION[k]) + 0.05)) \
+                    <= PAIR_NM * lon_slack(k) / 60, "1.67 NM of longitude in band %d is inside C03's precondition" % k
+            for i in (0, 1):
+                half = cpr_spec.dlon(k, i, surface) / 2 - cpr_spec.lon_step(k, i, surface)
+                assert (ref_nm / 60) * inv <= half, \
+                    "30 NM of longitude in band %d is inside C04's half-zone box (parity %d, surface %s)" % (k, i, surface)
+                n += 1
+    assert n == 2 * 58 * 2, "every band x parity x kind visited"
